@@ -7,7 +7,7 @@ Sizes == CASE SizeSet = 1 -> {<<2,2>>, <<3,2>>, <<2,3>>} [] SizeSet = 2 -> {<<2,
 VARIABLES cfg, st
 BaseModel(no, nv, seed) ==
   [noa |-> no, nob |-> 0, nva |-> nv, nvb |-> 0, seed |-> seed,
-   restricted |-> FALSE, spincons |-> FALSE, fock |-> "diag", eri |-> "gen",
+   restricted |-> FALSE, spincons |-> FALSE, scn |-> <<>>, fock |-> "diag", eri |-> "gen",
    re |-> 2, rD |-> 0, rf |-> 3, rv |-> 0, rV |-> 1, rU |-> 0, umat |-> <<>>,
    bkn |-> <<1, 0, 1>>, tabs |-> << <<>>, <<>>, <<>> >>]
 Init == cfg \in Sizes \X Seeds /\ st = "todo"
